@@ -349,6 +349,27 @@ def main(run):
     n_unsup = 0
     if want("C"):
         n_unsup = check_unsupported(run)
+    if want("E"):
+        from lib import c12_createcd
+
+        seen = set()
+        for st, cls, key, text, wit in common.parallel_map(c12_createcd.run_all, [None], 1)[0]:
+            if st == "ok":
+                run.ok(cls, key)
+            elif st == "inconc":
+                run.inconc(cls, key, text)
+            elif st == "violation":
+                if key not in seen:
+                    seen.add(key)
+                    # replay: the same call once more on fresh objects
+                    again = [x for x in c12_createcd.run_all() if x[0] == "violation" and x[2] == key]
+                    if again:
+                        run.violation(cls, key, text, wit)
+                    else:
+                        run.inconc(cls, key, "did not reproduce: " + text[:200])
+            else:
+                run.harness_error(f"createCalldata part: {text}")
+        run.functions_encoded.append("halmos.cheatcodes.create_calldata_generic (svm.createCalldata)")
     if want("D"):
         uid_diagnostic(run)
     if want("P"):
